@@ -314,15 +314,9 @@ theorem splitOn_module : ("module".splitOn " ") = ["module"] := by
   simp only [show (" " == "") = false by decide, Bool.false_eq_true, if_false]
   repeat (rw [String.splitOnAux]; simp (config := {decide := true}))
 
-theorem firstWord_paren : firstWord "(" = "(" := by
-  unfold firstWord
-  rw [splitOn_paren]
-  exact strip_plain "(" (by decide +kernel) (by decide +kernel)
+theorem firstWord_paren : firstWord "(" = "(" := by decide +kernel
 
-theorem firstWord_module : firstWord "module" = "module" := by
-  unfold firstWord
-  rw [splitOn_module]
-  exact strip_plain "module" (by decide +kernel) (by decide +kernel)
+theorem firstWord_module : firstWord "module" = "module" := by decide +kernel
 
 /-- no comment, no directive among the tokens -/
 def cleanToks (ts : Toks) : Bool := ts.all (fun t => !(Text.isCommentTok t) && !(t.startsWith "`"))
